@@ -115,7 +115,7 @@ def property_file(pid):
         if b.startswith("Closed under"):
             assumptions[name] = []
         else:
-            assumptions[name] = sorted(set(re.findall(r"^([A-Za-z0-9_'.]+)\s*:", b, flags=re.M)))
+            assumptions[name] = sorted(set(re.findall(r"^([A-Za-z0-9_'.]+)\s*:", b, flags=re.M)) - {"Axioms"})
     return dict(ok=(rc == 0), theorems=theorems, examples=examples, assumptions=assumptions,
                 printed=len(blocks), expected_prints=len(pa_targets), log=(out + err)[-4000:])
 
